@@ -14,9 +14,9 @@ from mpv import arr, cmdgen
 ANCHORS = ['mpilot/utils.py:insure_fuzzy', 'mpilot/libraries/eems/fuzzy.py:FuzzyXOr.execute', 'mpilot/libraries/eems/fuzzy.py:CvtToFuzzy.execute', 'mpilot/libraries/eems/fuzzy.py:FuzzyWeightedUnion.execute', 'mpilot/libraries/eems/fuzzy.py:CvtToFuzzyCat.execute']   # repository functions the workload must enter (reported as anchors_reached / anchors_missed)
 LEVEL = "exploration"
 RULE = ("the 14 fuzzy-producing commands x hostile parameter sets x hostile finite inputs (lattice, wild floats 1e-9..1e9, "
-        "int64/float64/float32/int32/int16) x shapes rank 1-3 x masks; distinct by (command, n, rank, dtypes, mask class, parameter-"
+        "int64/float64/float32/int32/int16) x shapes rank 1-3 x masks (any finite number or NaN stored underneath them); rasters of 1-2.1 million cells; distinct by (command, n, rank, dtypes, mask class, parameter-"
         "shape class)")
-REQUIRED_COUNTERS = ["range_postconditions", "fuzzy_cells_checked", "quiescent_rechecks", "model_runs"]
+REQUIRED_COUNTERS = ["range_postconditions", "fuzzy_cells_checked", "quiescent_rechecks", "model_runs", "large_rasters_checked"]
 ASSUMPTIONS = ["inputs finite, magnitudes in 1e-9..1e9 or the dyadic lattice; control points closer than 1e-9 relative (slope overflow) "
                "are not generated", "parameter sets for which the command raises one of its specific errors are not judged",
                "fuzzy inputs to fuzzy operators lie in [-1,1] (what producers guarantee)"]
@@ -51,13 +51,59 @@ def cases(ctx):
                 c["params"] = {"TrueThreshold": mid + q, "FalseThreshold": mid - q} if rng.random() < 0.5 else {"TrueThreshold": mid - q, "FalseThreshold": mid + q}
         if cmd == "FuzzyWeightedUnion" and rng.random() < 0.3:
             c["params"]["Weights"] = [rng.choice([-1, 2, 3, -0.5, 5]) for _ in c["inputs"]]
+        if rng.random() < 0.15:
+            # NaN stored underneath the missing cells of float inputs (masked_invalid data, NaN fill values)
+            c["inputs"] = [arr.with_payload(s_, "nan") for s_ in c["inputs"]]
         c["wild"] = wild
         c["consumer"] = rng.choice(CONSUMERS)
         yield c
+    # rasters of more than a million cells (block-wise / size-dependent code paths), checked vectorised
+    for i in range(ctx.n(2, 16)):
+        yield {"kind": "big", "cmd": BIG_CMDS[i % len(BIG_CMDS)], "shape": list(BIG_SHAPES[(i // len(BIG_CMDS) + i) % len(BIG_SHAPES)]), "rseed": rng.randrange(10 ** 9),
+               "masked": i % 3 != 0}
     from mpv import models
     for i in range(ctx.n(300, 15000)):
         yield {"kind": "model", "model": models.gen_model(rng, n_ops=rng.randint(2, 12), sinks=rng.random() < 0.5, libs="nc" if i % 3 == 0 else "csv",
                                                             cmds=list(cmdgen.ALL) + sorted(arr.FUZZY_OUTPUT) * 2)}
+
+
+BIG_CMDS = ["CvtToFuzzy", "FuzzyWeightedUnion", "CvtToFuzzyCurve", "CvtToFuzzyZScore", "CvtToFuzzyCat", "CvtToFuzzyMeanToMid"]
+BIG_SHAPES = [(1100, 1000), (2 ** 20 + 1,), (3, 700, 500), (2 ** 21,), (1500, 1400), (2 ** 20 + 2 ** 19,), (1025, 1024)]
+
+
+def run_big(ctx, case):
+    cmd, shape = case["cmd"], tuple(case["shape"])
+    rs = numpy.random.RandomState(case["rseed"] % (2 ** 31))
+    fuzzy_in = cmd in arr.FUZZY_INPUT
+    n_in = 3 if fuzzy_in else 1
+    inputs = []
+    for _ in range(n_in):
+        data = rs.uniform(-1.0, 1.0, size=shape) if fuzzy_in else numpy.round(rs.uniform(-1000.0, 1000.0, size=shape), 3)
+        if cmd == "CvtToFuzzyCat":
+            data = rs.randint(0, 6, size=shape).astype("float64")
+        inputs.append(numpy.ma.array(data, mask=(rs.uniform(size=shape) < 0.1)) if case["masked"] else numpy.ma.array(data))
+    params = {"CvtToFuzzy": {"TrueThreshold": 250.5, "FalseThreshold": -100},
+              "FuzzyWeightedUnion": {"Weights": [3, -1, 0.5]},
+              "CvtToFuzzyCurve": {"RawValues": [-500, 0, 400], "FuzzyValues": [-7, 3.5, 12]},
+              "CvtToFuzzyZScore": {"TrueThresholdZScore": 0.25, "FalseThresholdZScore": -0.5},
+              "CvtToFuzzyCat": {"RawValues": [0, 1, 2, 3], "FuzzyValues": [-5, 0.5, 1e6, -1.5], "DefaultFuzzyValue": 9},
+              "CvtToFuzzyMeanToMid": {"IgnoreZeros": False, "FuzzyValues": [-4, -0.5, 0, 0.5, 4]}}[cmd]
+    ctx.feature(("big", cmd, len(shape), int(numpy.prod(shape)) % (2 ** 20) == 0, case["masked"]))
+    out, prog = arr.run_cmd(cmd, inputs, params, fuzzy_inputs=fuzzy_in)
+    if not out.ok:
+        ctx.dontcare("%s raises %s on a large raster" % (cmd, out.inner() or out.err))
+        return
+    res = out.value
+    ctx.count("range_postconditions")
+    ctx.count("large_rasters_checked")
+    ctx.count("fuzzy_cells_checked", int(getattr(res, "size", 0)))
+    bad = _range_bad(res)
+    if bad:
+        m = numpy.ma.getmaskarray(res)
+        d = numpy.ma.getdata(res)
+        off = numpy.flatnonzero(((d > 1.0) | (d < -1.0) | numpy.isnan(d)).ravel() & ~m.ravel())
+        ctx.fail("%s:%s:large-raster" % (cmd, bad[0]), {"range": bad[1], "shape": list(shape), "cells": int(res.size), "first_bad_cell": int(off[0]) if off.size else None,
+                                                        "bad_cells": int(off.size), "params": params})
 
 
 _contract = {"evals": 0, "installed": False, "violations": []}
@@ -166,6 +212,8 @@ def run_model(ctx, case):
 def run_case(ctx, case):
     if case.get("kind") == "model":
         return run_model(ctx, case)
+    if case.get("kind") == "big":
+        return run_big(ctx, case)
     cmd, params = case["cmd"], case["params"]
     inputs = [arr.build(s) for s in case["inputs"]]
     fuzzy_in = cmd in arr.FUZZY_INPUT
